@@ -14,7 +14,7 @@ pub static C05: P05 = P05;
 pub struct P06;
 pub static C06: P06 = P06;
 
-pub const CONTENTS05: [&str; 6] = ["", "a", "bb cc dd", "e<br>f", "中中 g", "<table><tr><td>alpha</td><td>b</td></tr></table>"];
+pub const CONTENTS05: [&str; 6] = ["", "a", "bb cc dd", "e<br>f", "中中中中中 g", "<table><tr><td>alpha</td><td>b</td></tr></table>"];
 pub const CONTENTS06: [&str; 6] = ["", "X", "X1 X2 X3", "X4<br>X5", "X6X7X8X9", "X0"];
 
 #[derive(Debug, PartialEq)]
